@@ -54,6 +54,13 @@ func (e *E) Distinct(key string) {
 	e.mu.Unlock()
 }
 
+// WantSample reports whether another sample would still be kept.
+func (e *E) WantSample() bool {
+	e.mu.Lock()
+	defer e.mu.Unlock()
+	return len(e.samples) < e.maxSamp
+}
+
 func (e *E) Sample(s any) {
 	e.mu.Lock()
 	if len(e.samples) < e.maxSamp {
